@@ -413,7 +413,11 @@ def run_path(I, c, cfg, decisions):
             records.append(("ensures", name, list(ctx.pc), g, relaxed))
         for exc, name, when, state in c.raises:
             g = _to_goal(when(old))
-            records.append(("raises-complete", name, list(ctx.pc), z3.Not(g)))
+            relaxed = None
+            if ("raises-complete:" + name) in c.known:
+                regs = [_to_goal(reg(old)) for _, reg in c.known["raises-complete:" + name]]
+                relaxed = (c.known["raises-complete:" + name][0][0], z3.Or(z3.Not(g), *regs))
+            records.append(("raises-complete", name, list(ctx.pc), z3.Not(g), relaxed))
     else:
         exc = outcome[1]
         matched = False
@@ -430,7 +434,12 @@ def run_path(I, c, cfg, decisions):
                     relaxed = (c.known["raise:" + ename][0][0], z3.Or(g, *regs))
                 records.append(("raises-sound", name, list(ctx.pc), g, relaxed))
                 if state is not None:
-                    records.append(("raises-state", name, list(ctx.pc), _to_goal(state(a, old))))
+                    gs = _to_goal(state(a, old))
+                    relaxed = None
+                    if ("raises-state:" + name) in c.known:
+                        regs = [_to_goal(reg(old)) for _, reg in c.known["raises-state:" + name]]
+                        relaxed = (c.known["raises-state:" + name][0][0], z3.Or(gs, *regs))
+                    records.append(("raises-state", name, list(ctx.pc), gs, relaxed))
                 break
         if not matched:
             if c.allow_raise and I.exc_matches(exc, tuple(c.allow_raise)):
@@ -568,7 +577,7 @@ def replay_concrete(c, cfg, model, use_known=False):
         keep = []
         for kind, name in failed:
             key = name if kind == "ensures" else ("raise:" + name.split(":")[0] if kind == "no-unexpected-exception" else
-                                                  ("raise:" + type(outcome[1]).__name__ if kind.startswith("raises-") and outcome[0] == "raise" else name))
+                                                  ("raise:" + type(outcome[1]).__name__ if kind == "raises-sound" and outcome[0] == "raise" else kind + ":" + name))
             hit = None
             for fid, reg in c.known.get(key, []):
                 try:
